@@ -50,6 +50,10 @@ type HarnessCfg struct {
 	Cross       string
 	Params      map[string]int64 // harness parameters readable through vxParam("name")
 	Stubs       map[string]Intrinsic
+	Portfolio   []string // further solvers tried (one-shot) when the first answers unknown
+	OneShot     bool // assertion queries go to a fresh non-incremental solver process
+	FPUF        bool // float arithmetic as uninterpreted functions (sound for proving equalities such as symmetry)
+	NoMerge     bool // disable ite-merging of pure diamonds (debugging / cross-validation)
 	PanicIsViol bool // a Go panic in the code under test counts as violation label "panic"
 }
 
@@ -185,6 +189,42 @@ func (p *Path) query(wantModel bool, extras ...*Term) (string, map[string]string
 		// surface for evidence; callers decide what it means
 	}
 	return r, model
+}
+
+// hardQuery: an assertion-level query, decided by a fresh non-incremental solver process.
+func (p *Path) hardQuery(wantModel bool, extras ...*Term) (string, map[string]string) {
+	for _, e := range extras {
+		if e.C && !e.B {
+			return "unsat", nil
+		}
+	}
+	if !p.ex.cfg.OneShot {
+		return p.query(wantModel, extras...)
+	}
+	p.flushDecls()
+	atomic.AddInt64(&p.ex.res.Queries, 1)
+	var ex []string
+	for _, e := range extras {
+		if !(e.C && e.B) {
+			ex = append(ex, e.S)
+		}
+	}
+	var names []string
+	if wantModel {
+		for _, v := range p.vx {
+			names = append(names, v.Name)
+		}
+	}
+	r, m := oneShot(p.ex.cfg.Solver, p.script, ex, p.ex.cfg.TimeoutMs, names)
+	if r == "unknown" || r == "error" {
+		for _, alt := range p.ex.cfg.Portfolio {
+			r2, m2 := oneShot(alt, p.script, ex, p.ex.cfg.TimeoutMs, names)
+			if r2 == "sat" || r2 == "unsat" {
+				return r2, m2
+			}
+		}
+	}
+	return r, m
 }
 
 // one-shot second opinion on another solver
@@ -323,16 +363,22 @@ func (p *Path) vxAssert(label string, c *Term) {
 	}
 	neg := p.not(c)
 	outside := p.not(p.knownUnion())
+	if d := os.Getenv("VERIF_DUMP"); d != "" {
+		p.flushDecls()
+		os.MkdirAll(d, 0755)
+		f := fmt.Sprintf("%s/%s-%s-%d.smt2", d, p.ex.cfg.Name, strings.ReplaceAll(label, "/", "_"), atomic.AddInt64(&p.ex.npath, 0)*1000+int64(len(p.trail)))
+		os.WriteFile(f, []byte(strings.Join(p.script, "\n")+"\n(assert "+neg.S+")\n(check-sat)\n(get-model)\n"), 0644)
+	}
 	var r string
 	var model map[string]string
 	if len(p.prefs) > 0 {
 		// soft constraints first: prefer counterexamples the native replayer can realise
-		r, model = p.query(true, append([]*Term{neg, outside}, p.prefs...)...)
+		r, model = p.hardQuery(true, append([]*Term{neg, outside}, p.prefs...)...)
 		if r != "sat" {
-			r, model = p.query(true, neg, outside)
+			r, model = p.hardQuery(true, neg, outside)
 		}
 	} else {
-		r, model = p.query(true, neg, outside)
+		r, model = p.hardQuery(true, neg, outside)
 	}
 	switch r {
 	case "sat":
@@ -362,7 +408,7 @@ func (p *Path) vxAssert(label string, c *Term) {
 	}
 	sort.Strings(ids)
 	for _, id := range ids {
-		rk, mk := p.query(true, neg, p.known[id])
+		rk, mk := p.hardQuery(true, neg, p.known[id])
 		if rk == "sat" {
 			vec, tags := p.model2vec(mk)
 			res.mu.Lock()
@@ -461,6 +507,8 @@ func runHarness(in *Interp, cfg *HarnessCfg, workers int) *HarnessResult {
 	ex.qcond = sync.NewCond(&ex.qmu)
 	ex.queue = [][]int{{}}
 	t0 := time.Now()
+	gFPUF = cfg.FPUF
+	defer func() { gFPUF = false }()
 	fn := in.lookupFunc(cfg.Pkg, cfg.Name)
 	if fn == nil {
 		res.incon(fmt.Sprintf("harness %s.%s not found (does it still compile against the tree?)", cfg.Pkg, cfg.Name))
